@@ -10,7 +10,7 @@ import (
 
 func init() {
 	register("C14", propMeta{
-		Explanation: "E-PANIC + E-CONST + E-GUARD over the broker's HTTP surface. O-0: the routes registered in main are enumerated from the http.Handle/HandleFunc calls. O-1: from every handler entry point (ServeHTTP methods, handler functions reached through the handler field, metric callbacks) no repository code path contains an explicit panic, Fatal/Exit or undischarged single-value assertion; the Prometheus With() panics are discharged by O-1b label-set agreement (literal key set of every prometheus.Labels{...} equals the label names given to that vector's constructor). O-2: a request body is only ever read through http.MaxBytesReader(w, r.Body, 100000) and a failed read answers 4xx without reaching the IPC layer. O-3: after each IPC call the success output is behind err == nil and every error path writes a 4xx/5xx status before returning. O-4: the legacy shim and the versioned path share the single ClientOffers call site. O-5 no unbounded wait inside a handler: the channel-rendezvous obligations of C04 (reply obligation, abandonable peer, claimed means committed, deregistration, lock hygiene) are evaluated here as well, under rule names prefixed O-5/C04. A handler panic makes net/http drop the connection without a response, so each clause is a necessary condition of 'every request gets a well-formed response'. Added after the second seeding round: O-6/C02 the Broker loop's poll goroutine works on its own poll (no captured loop variable) and the broker rows of the guarded-by table hold (an unlocked iteration of the id map is a fatal runtime error for the whole process).",
+		Explanation: "E-PANIC + E-CONST + E-GUARD over the broker's HTTP surface. O-0: the routes registered in main are enumerated from the http.Handle/HandleFunc calls. O-1: from every handler entry point (ServeHTTP methods, handler functions reached through the handler field, metric callbacks) no repository code path contains an explicit panic, Fatal/Exit or undischarged single-value assertion; the Prometheus With() panics are discharged by O-1b label-set agreement (literal key set of every prometheus.Labels{...} equals the label names given to that vector's constructor). O-2: a request body is only ever read through http.MaxBytesReader(w, r.Body, 100000) and a failed read answers 4xx without reaching the IPC layer. O-3: after each IPC call the success output is behind err == nil and every error path writes a 4xx/5xx status before returning. O-4: the legacy shim and the versioned path share the single ClientOffers call site. O-5 no unbounded wait inside a handler: the channel-rendezvous obligations of C04 (reply obligation, abandonable peer, claimed means committed, deregistration, lock hygiene) are evaluated here as well, under rule names prefixed O-5/C04. A handler panic makes net/http drop the connection without a response, so each clause is a necessary condition of 'every request gets a well-formed response'. Added after the second seeding round: O-6/C02 the Broker loop's poll goroutine works on its own poll (no captured loop variable) and the broker rows of the guarded-by table hold (an unlocked iteration of the id map is a fatal runtime error for the whole process). Added after the third seeding round: O-1d every status the legacy shim writes is a constant or comes from a table whose miss case yields a valid status.",
 		NotDecided:  "net/http's own behaviour, byte-level well-formedness of responses, timing (C04), panics inside third-party libraries other than the label-mismatch panic of prometheus With().",
 		Assumptions: []string{"third-party/stdlib callees do not panic except prometheus With()/GetMetricWith on label mismatch", "net/http recovers handler panics by closing the connection (the behaviour the property forbids)"},
 	}, runC14)
@@ -154,6 +154,24 @@ func runC14(c *Ctx) {
 		return ""
 	})
 	c.checkConstIndexes("O-1c constant indexes into submatch/split results", reached)
+
+	// ---- O-1d status codes are constants ----
+	// net/http panics on WriteHeader(code) with code < 100 or > 999: a status looked up or computed at run
+	// time (a table with a missing entry yields 0) turns an unexpected value into a dropped connection
+	{
+		nWH := 0
+		for _, fn := range reached {
+			if p.Rel(fn) != "broker" {
+				continue
+			}
+			for _, ci := range callsTo(fn, "(net/http.ResponseWriter).WriteHeader") {
+				nWH++
+				good := validStatusValue(p, fn, ci.Common().Args[0], ci.Block(), map[ssa.Value]bool{})
+				c.check(good, "O-1d status codes are constants", p.FnName(fn)+" writes a constant status", p.instrPos(ci), "", "the status handed to WriteHeader is not a compile-time constant between 100 and 599 (nor a table entry of such constants taken only when present): net/http panics on an invalid code (0 from a table miss) and the client gets no response")
+			}
+		}
+		c.count("WriteHeader sites", nWH)
+	}
 
 	// ---- O-2 body cap ----
 	c.checkBodyCap(reached)
@@ -481,4 +499,108 @@ func (c *Ctx) checkIPCErrorMapping(reached []*ssa.Function) {
 	}
 	c.count("IPC call sites in handlers", nIPC)
 
+}
+
+// validStatusValue: v is a constant in [100, 599]; or a phi of such values; or
+// the value of a comma-ok lookup in a package-level table whose entries are all
+// such constants, arriving only over the "present" edge of the lookup.
+func validStatusValue(p *Prog, fn *ssa.Function, v ssa.Value, at *ssa.BasicBlock, seen map[ssa.Value]bool) bool {
+	if seen[v] {
+		return true
+	}
+	seen[v] = true
+	if k, ok := constInt(v); ok {
+		return k >= 100 && k <= 599
+	}
+	switch x := v.(type) {
+	case *ssa.Phi:
+		for i, e := range x.Edges {
+			if ex, ok := e.(*ssa.Extract); ok && ex.Index == 0 {
+				if lk, okl := ex.Tuple.(*ssa.Lookup); okl && lk.CommaOk {
+					// must arrive over (or from behind) the ok == true edge
+					okE := boolEdges(fn, true, func(w ssa.Value) bool {
+						e2, isE := w.(*ssa.Extract)
+						return isE && e2.Tuple == ssa.Value(lk) && e2.Index == 1
+					})
+					via := false
+					pred := x.Block().Preds[i]
+					for _, ce := range okE {
+						if ce.From == pred && ce.To() == x.Block() {
+							via = true
+						}
+					}
+					if !via && (len(okE) == 0 || psSearch(fn.Blocks[0], okE, nil, func(b *ssa.BasicBlock) bool { return b == pred }) != nil) {
+						return false
+					}
+					if !tableOfStatuses(p, lk.X) {
+						return false
+					}
+					continue
+				}
+			}
+			if !validStatusValue(p, fn, e, x.Block().Preds[i], seen) {
+				return false
+			}
+		}
+		return len(x.Edges) > 0
+	}
+	return false
+}
+
+// tableOfStatuses: m is a load of a package-level map that is written only by
+// its initialiser, with constant values in [100, 599].
+func tableOfStatuses(p *Prog, m ssa.Value) bool {
+	addr, ok := loadAddr(strip(m))
+	if !ok {
+		return false
+	}
+	g, ok := addr.(*ssa.Global)
+	if !ok || g.Pkg == nil {
+		return false
+	}
+	init := g.Pkg.Func("init")
+	if init == nil {
+		return false
+	}
+	var mk *ssa.MakeMap
+	nStore := 0
+	allInstrs(init, func(in ssa.Instruction) {
+		if st, ok := in.(*ssa.Store); ok && st.Addr == ssa.Value(g) {
+			nStore++
+			mk, _ = strip(st.Val).(*ssa.MakeMap)
+		}
+	})
+	if nStore != 1 || mk == nil || mk.Referrers() == nil {
+		return false
+	}
+	// no other writer of the variable or of the map anywhere in the repository
+	for _, fn := range p.FnsIn() {
+		bad := false
+		allInstrs(fn, func(in ssa.Instruction) {
+			switch x := in.(type) {
+			case *ssa.Store:
+				if x.Addr == ssa.Value(g) {
+					bad = true
+				}
+			case *ssa.MapUpdate:
+				if a, okl := loadAddr(strip(x.Map)); okl && a == ssa.Value(g) {
+					bad = true
+				}
+			}
+		})
+		if bad {
+			return false
+		}
+	}
+	n := 0
+	for _, r := range *mk.Referrers() {
+		if mu, ok := r.(*ssa.MapUpdate); ok && mu.Map == ssa.Value(mk) {
+			k, okk := constInt(mu.Value)
+			if !okk || k < 100 || k > 599 {
+				return false
+			}
+			n++
+		}
+	}
+	return n > 0
 }
